@@ -117,7 +117,16 @@ func (jt *JSONTable) RenderTo(w io.Writer) error {
 		return err
 	}
 	needComma := false
-	for _, r := range jt.AllRows() {
+	rows := jt.AllRows()
+	// a comma follows an object only if another object follows it; separators
+	// after the last object must not leave a dangling comma
+	lastObject := -1
+	for i, r := range rows {
+		if !r.IsSeparator() {
+			lastObject = i
+		}
+	}
+	for i, r := range rows {
 		if needComma {
 			if _, err = io.WriteString(w, ",\n"); err != nil {
 				return err
@@ -133,7 +142,7 @@ func (jt *JSONTable) RenderTo(w io.Writer) error {
 		if err = jt.emitRowAsJSONObject(w, skipableColumns, keys, r.Cells()); err != nil {
 			return err
 		}
-		needComma = true
+		needComma = i < lastObject
 	}
 	// We assume need newline prefix because no comma+newline from new row,
 	// but if the table is empty, this will result in "[\n\n]\n" which is
